@@ -276,7 +276,9 @@ theorem fdtGetNext_queue (s : State) (now : Nat) : (fdtGetNext s now).queue = s.
   · exact ⟨rfl, rfl⟩
   · have h := fdtAdvance_queue (fdtMaybePublish s now) now
     have h2 : (fdtMaybePublish s now).queue = s.queue ∧ (fdtMaybePublish s now).files = s.files := by
-      unfold fdtMaybePublish; split <;> exact ⟨rfl, rfl⟩
+      unfold fdtMaybePublish; split
+      · exact publishTry_elim (P := fun x => x.queue = s.queue ∧ x.files = s.files) s now ⟨rfl, rfl⟩ ⟨rfl, rfl⟩
+      · exact ⟨rfl, rfl⟩
     exact ⟨by rw [h.1, h2.1], by rw [h.2, h2.2]⟩
 
 theorem runFdt_queue : ∀ fuel s now, (runFdt fuel s now).1.queue = s.queue ∧ (runFdt fuel s now).1.files = s.files := by
